@@ -10,3 +10,6 @@ import OxyModel.Props.C20
 #print axioms C20.C20_failed_hijack_relayed
 #print axioms C20.C20_info_implicit_final_counterexample
 #print axioms C20.C20_retry_documented
+#print axioms C20.C20_expectBody_false_iff
+#print axioms C20.C20_buffer_drops_body_kinds
+#print axioms C20.C20_retry_stateful_link
